@@ -59,6 +59,12 @@ func (seq *Sequence) Release() error {
 	seq.Lock()
 	defer seq.Unlock()
 
+	// Nothing is leased (no Next call yet, lease used up or already released), so there is nothing to give back.
+	// Writing next in that case could roll the stored value back and lead to reused integers.
+	if seq.next >= seq.reserved {
+		return nil
+	}
+
 	var buf [8]byte
 	binary.BigEndian.PutUint64(buf[:], seq.next)
 	if err := seq.store.Set(seq.key, buf[:]); err != nil {
